@@ -214,9 +214,14 @@ func c17Salt(r *rand.Rand) []byte {
 func TestC17(t *testing.T) {
 	m := mon.New(t, "C17")
 	defer m.Done()
-	m.Rule("roundtrip cases: password length forced by index (72, 71, a fixed boundary list 0..72, random 0..72), style by index (ASCII, multi-byte UTF-8, arbitrary non-NUL bytes with many >=0x80 and 0xff runs, bytes with NULs), cost 4 (5 and 6 for 1/8 each), salt through a replaced crypto/rand.Reader (zero, all-ones, random): GenerateFromPassword output must be $2a$-formatted, equal the reference hash for that salt, report its cost, verify under itself, under the reference and under every applicable witness (nettle: all passwords; libxcrypt crypt_r: NUL-free; python crypt: NUL-free valid UTF-8); then near-miss candidates (one byte changed at forced and random positions incl. 0, len-1, 71; shorter by one; one byte longer; +NUL; cyclic repetition pw‖NUL‖pw[:k]; byte→NUL; >72-byte extensions) must be accepted iff the 72-byte effective key (password‖NUL cut to 72 bytes, read cyclically) is the same — for candidates longer than 72 bytes only 'a different key is never accepted' is judged (undocumented). Passwords of 73..80 bytes must be refused by GenerateFromPassword with ErrPasswordTooLong. foreign cases: hash made by libxcrypt / nettle / reference under $2a$, $2b$, $2y$ must be accepted with the right password, rejected with a near miss, and Cost must return its cost. malformed cases: from a valid hash every proper prefix, one or two substitutions at every one of the 60 positions, appended bytes, and random strings: outcome table in c17Substitution (documented or format-forced errors are judged; older major version, unknown minor letter, non-canonical unused bits of the last salt/hash character, Cost on a 59-byte prefix are observed only); nothing may panic. Every call receives guarded private copies of its input slices (capacity exact, +1, +2, +16 with a sentinel in the spare part) that must be byte-identical afterwards; once per roundtrip/foreign case the same hashedPassword and password slices are used for right/wrong/right Compare and 3x Cost without restoring them; the last 8 returned hashes are kept and re-verified after later calls")
+	m.Rule("roundtrip cases: password length forced by index (72, 71, a fixed boundary list 0..72, random 0..72), style by index (ASCII, multi-byte UTF-8, arbitrary non-NUL bytes with many >=0x80 and 0xff runs, bytes with NULs), cost 4 (5 and 6 for 1/8 each), salt through a replaced crypto/rand.Reader (zero, all-ones, random): GenerateFromPassword output must be $2a$-formatted, equal the reference hash for that salt, report its cost, verify under itself, under the reference and under every applicable witness (nettle: all passwords; libxcrypt crypt_r: NUL-free; python crypt: NUL-free valid UTF-8); then near-miss candidates (one byte changed at forced and random positions incl. 0, len-1, 71; shorter by one; one byte longer; +NUL; cyclic repetition pw‖NUL‖pw[:k]; byte→NUL; >72-byte extensions) must be accepted iff the 72-byte effective key (password‖NUL cut to 72 bytes, read cyclically) is the same — for candidates longer than 72 bytes only 'a different key is never accepted' is judged (undocumented). Passwords of 73..80 bytes must be refused by GenerateFromPassword with ErrPasswordTooLong. foreign cases: hash made by libxcrypt / nettle / reference under $2a$, $2b$, $2y$ must be accepted with the right password, rejected with a near miss, and Cost must return its cost. malformed cases: from a valid hash every proper prefix, one or two substitutions at every one of the 60 positions, appended bytes, and random strings: outcome table in c17Substitution (documented or format-forced errors are judged; older major version, unknown minor letter, non-canonical unused bits of the last salt/hash character, Cost on a 59-byte prefix are observed only); nothing may panic. Every call receives guarded private copies of its input slices (capacity exact, +1, +2, +16 with a sentinel in the spare part) that must be byte-identical afterwards; once per roundtrip/foreign case the same hashedPassword and password slices are used for right/wrong/right Compare and 3x Cost without restoring them; the last 8 returned hashes are kept and re-verified after later calls." + concRule)
 	m.Assume("h/ref/bcryptref (Blowfish tables computed from π with math/big, EksBlowfish from the USENIX'99 paper) passes Eric Young's Blowfish vectors and the OpenBSD/Openwall bcrypt vectors; nettle and libxcrypt pass the same vectors in their clib unit tests; x/crypto/blowfish is not used by any oracle")
 	m.Assume("crypt_blowfish-derived witnesses alter $2a$ hashes for passwords that trigger their sign-extension collision countermeasure; those passwords are presented to them under $2b$ (same algorithm, no countermeasure)")
+	if mon.RaceBuild {
+		// race variant: only the shared-value concurrency streams (the race detector costs 5-15x)
+		concGates(m, c17Concurrent(m), false)
+		return
+	}
 	py, pyErr := ext.StartPy()
 	if pyErr != nil {
 		m.Note("python witness unavailable: " + pyErr.Error())
@@ -667,6 +672,7 @@ func TestC17(t *testing.T) {
 		}
 	})
 
+	concGates(m, c17Concurrent(m), false)
 	m.Gate("repeatability_triples_on_same_slice", nR+nF, "right/wrong/right Compare and 3x Cost on the same slices, once per roundtrip and per foreign case")
 	m.Gate("input_immutability_checks", 10*nR, "input slices compared with their snapshot after the call")
 	m.Gate("input_immutability_checks_with_spare_capacity", 5*nR, "of which slices with cap > len whose spare capacity carries a sentinel")
